@@ -25,6 +25,8 @@ use kira::listener::ListenerHandle;
 use kira::modulator::lfo::{LfoBuilder, LfoHandle, Waveform};
 use kira::modulator::tweener::{TweenerBuilder, TweenerHandle};
 use kira::sound::static_sound::{StaticSoundData, StaticSoundHandle, StaticSoundSettings};
+use kira::sound::streaming::{Decoder, StreamingSoundData, StreamingSoundHandle};
+use kira::sound::PlaybackState;
 use kira::track::{
 	MainTrackBuilder, SendTrackBuilder, SendTrackHandle, SpatialTrackBuilder, SpatialTrackHandle, TrackBuilder,
 	TrackHandle,
@@ -312,6 +314,51 @@ fn gen_tween(g: &mut G, nclocks: usize) -> String {
 	)
 }
 
+/// in-memory decoder of a streaming sound (`splay`): 64-frame packets, exact seeks
+struct MemDecoder {
+	frames: Arc<[Frame]>,
+	sr: u32,
+	pos: usize,
+}
+impl Decoder for MemDecoder {
+	type Error = ();
+	fn sample_rate(&self) -> u32 {
+		self.sr
+	}
+	fn num_frames(&self) -> usize {
+		self.frames.len()
+	}
+	fn decode(&mut self) -> Result<Vec<Frame>, ()> {
+		let end = (self.pos + 64).min(self.frames.len());
+		let v = self.frames[self.pos..end].to_vec();
+		self.pos = end;
+		Ok(v)
+	}
+	fn seek(&mut self, index: usize) -> Result<usize, ()> {
+		self.pos = index.min(self.frames.len());
+		Ok(self.pos)
+	}
+}
+
+/// a static or a streaming sound handle: the `snd…` ops address either
+enum Snd {
+	St(StaticSoundHandle),
+	Sm(StreamingSoundHandle<()>),
+}
+macro_rules! snd_call {
+	($s:expr, $h:ident => $e:expr) => {
+		match $s {
+			Snd::St($h) => $e,
+			Snd::Sm($h) => $e,
+		}
+	};
+}
+impl Snd {
+	fn state(&self) -> PlaybackState {
+		snd_call!(self, h => h.state())
+	}
+}
+
 struct Scene {
 	mgr: AudioManager<ProbeBackend>,
 	tracks: Vec<TrackHandle>,
@@ -321,7 +368,7 @@ struct Scene {
 	lfos: Vec<LfoHandle>,
 	tweeners: Vec<TweenerHandle>,
 	listeners: Vec<ListenerHandle>,
-	sounds: Vec<StaticSoundHandle>,
+	sounds: Vec<Snd>,
 }
 
 impl Scene {
@@ -633,8 +680,13 @@ pub fn gen(rng: &mut Rng, n: usize, thorough: bool, stats: &mut Stats) -> Vec<St
 					if reverse && startpos * sr as f64 >= len as f64 {
 						g.stats.hit("play_reverse_start_ge_len");
 					}
+					// one sound in five is a STREAMING sound over the same frames (in-memory decoder on its own thread;
+					// no slice, `reverse` ignored)
+					let op = if g.rng.chance(1, 5) { "splay" } else { "play" };
+					g.stats.hit(op);
 					format!(
-						"play {} {} {} {} {} {} {} {} {} {} {} {} {} {}",
+						"{} {} {} {} {} {} {} {} {} {} {} {} {} {} {}",
+						op,
 						g.rng.range(-1, 5),
 						len,
 						sr,
@@ -958,7 +1010,41 @@ fn exec(sc: &mut Option<Scene>, l: &str, out: &mut Out) {
 			};
 			match r {
 				Ok(h) => {
-					s.sounds.push(h);
+					s.sounds.push(Snd::St(h));
+					out.put("ok")
+				}
+				Err(_) => out.put("limit"),
+			}
+		}
+		"splay" => {
+			let len = pu(tok[2]) as usize;
+			let sr = (pu(tok[3]) as u32).max(1);
+			let mut data = StreamingSoundData::from_decoder(MemDecoder { frames: noise_frames(len, pu(tok[4])), sr, pos: 0 })
+				.volume(s.db_value(tok[5]))
+				.playback_rate(PlaybackRate(p64(tok[6])))
+				.panning(Panning(p32(tok[7])))
+				.start_position(p64(tok[11]))
+				.start_time(s.start(tok[13]));
+			let (ls, le) = (p64(tok[8]), p64(tok[9]));
+			if ls >= 0.0 {
+				data = if le >= 0.0 { data.loop_region(ls..le) } else { data.loop_region(ls..) };
+			}
+			if tok[12] != "-" {
+				data = data.fade_in_tween(Some(s.tween(tok[12])));
+			}
+			let t = pi(tok[1]);
+			let r = if t >= 0 && !s.tracks.is_empty() {
+				let n = s.tracks.len();
+				s.tracks[t as usize % n].play(data).map_err(|_| ())
+			} else if t >= 0 && !s.spatials.is_empty() {
+				let n = s.spatials.len();
+				s.spatials[t as usize % n].play(data).map_err(|_| ())
+			} else {
+				s.mgr.play(data).map_err(|_| ())
+			};
+			match r {
+				Ok(h) => {
+					s.sounds.push(Snd::Sm(h));
 					out.put("ok")
 				}
 				Err(_) => out.put("limit"),
@@ -968,12 +1054,12 @@ fn exec(sc: &mut Option<Scene>, l: &str, out: &mut Out) {
 			Some(i) => {
 				let tw = s.tween(tok[3]);
 				match tok[2] {
-					"pause" => s.sounds[i].pause(tw),
-					"resume" => s.sounds[i].resume(tw),
-					"stop" => s.sounds[i].stop(tw),
+					"pause" => snd_call!(&mut s.sounds[i], h => h.pause(tw)),
+					"resume" => snd_call!(&mut s.sounds[i], h => h.resume(tw)),
+					"stop" => snd_call!(&mut s.sounds[i], h => h.stop(tw)),
 					_ => {
 						let st = tw.start_time;
-						s.sounds[i].resume_at(st, Tween { start_time: StartTime::Immediate, ..tw })
+						snd_call!(&mut s.sounds[i], h => h.resume_at(st, Tween { start_time: StartTime::Immediate, ..tw }))
 					}
 				}
 				out.put(format!("{:?}", s.sounds[i].state()).to_lowercase())
@@ -983,9 +1069,9 @@ fn exec(sc: &mut Option<Scene>, l: &str, out: &mut Out) {
 		"snd.seek" => match idx(tok[1], s.sounds.len()) {
 			Some(i) => {
 				if tok[2] == "to" {
-					s.sounds[i].seek_to(p64(tok[3]).abs())
+					snd_call!(&mut s.sounds[i], h => h.seek_to(p64(tok[3]).abs()))
 				} else {
-					s.sounds[i].seek_by(p64(tok[3]))
+					snd_call!(&mut s.sounds[i], h => h.seek_by(p64(tok[3])))
 				}
 				out.put("ok")
 			}
@@ -994,9 +1080,9 @@ fn exec(sc: &mut Option<Scene>, l: &str, out: &mut Out) {
 		"snd.loop" => match idx(tok[1], s.sounds.len()) {
 			Some(i) => {
 				match (tok[2], tok[3]) {
-					("-", _) => s.sounds[i].set_loop_region(None),
-					(a, "-") => s.sounds[i].set_loop_region(p64(a)..),
-					(a, b) => s.sounds[i].set_loop_region(p64(a)..p64(b)),
+					("-", _) => snd_call!(&mut s.sounds[i], h => h.set_loop_region(None)),
+					(a, "-") => snd_call!(&mut s.sounds[i], h => h.set_loop_region(p64(a)..)),
+					(a, b) => snd_call!(&mut s.sounds[i], h => h.set_loop_region(p64(a)..p64(b))),
 				}
 				out.put("ok")
 			}
@@ -1007,9 +1093,9 @@ fn exec(sc: &mut Option<Scene>, l: &str, out: &mut Out) {
 				let tw = s.tween(tok[4]);
 				let v = p64(tok[3]);
 				match tok[2] {
-					"vol" => s.sounds[i].set_volume(Decibels(v as f32), tw),
-					"rate" => s.sounds[i].set_playback_rate(PlaybackRate(v), tw),
-					_ => s.sounds[i].set_panning(Panning(v as f32), tw),
+					"vol" => snd_call!(&mut s.sounds[i], h => h.set_volume(Decibels(v as f32), tw)),
+					"rate" => snd_call!(&mut s.sounds[i], h => h.set_playback_rate(PlaybackRate(v), tw)),
+					_ => snd_call!(&mut s.sounds[i], h => h.set_panning(Panning(v as f32), tw)),
 				}
 				out.put("ok")
 			}
